@@ -24,6 +24,8 @@ pub fn mon() -> Mon {
 
 fn plan(cfg: &RunCfg) -> EncPlan {
     let mut p = EncPlan::new(&FORMS);
+    // the body does not depend on where the packet goes: the destination is swept as the byte parameter it is
+    p.addr7 = false;
     p.len_max = 249;
     p.len_reps = cfg.pick(2, 100) as u32;
     p.random_per_form = cfg.pick(40_000, 1_000_000);
